@@ -141,6 +141,36 @@ pub fn run_admissible(
     )))
 }
 
+/// Running in two instalments: a state returned after L steps and run again for L steps must equal the
+/// state returned after 2L steps (the step budget is per call and nothing about a run is remembered in
+/// the state).  Real against real, no reference involved.  None = consistent or not applicable (abort).
+pub fn rerun_consistent(r: &RState, limit: usize) -> Option<String> {
+    let first = match run_real(r, limit) {
+        RealFinal::Done(s) => s,
+        _ => return None,
+    };
+    let again = match mcx::guarded(move || first.run_to_completion()) {
+        Ok(Ok(s)) => RealFinal::Done(s),
+        Ok(Err(e)) => RealFinal::Aborted(e.into_state(), String::new()),
+        Err(p) => RealFinal::Panic(p),
+    };
+    let whole = run_real(r, 2 * limit);
+    let same = match (&again, &whole) {
+        (RealFinal::Done(a), RealFinal::Done(b)) => observe(a) == observe(b),
+        (RealFinal::Aborted(a, _), RealFinal::Aborted(b, _)) => observe(a) == observe(b),
+        _ => false,
+    };
+    if same {
+        return None;
+    }
+    let show = |f: &RealFinal| match f {
+        RealFinal::Done(s) => format!("Ok {}", rstate_json(&observe(s))),
+        RealFinal::Aborted(s, _) => format!("Err {}", rstate_json(&observe(s))),
+        RealFinal::Panic(p) => format!("PANIC {p}"),
+    };
+    Some(format!("running {limit} steps and then {limit} more from {} ends as {}, running {} steps at once as {}", rstate_json(r), show(&again), 2 * limit, show(&whole)))
+}
+
 /// Find a key naming the first deviating instruction, for stable known-finding keys.
 pub fn localise(r: &RState, limit: usize, label: &str) -> String {
     let mut undec = false;
@@ -258,6 +288,14 @@ pub fn genome_sweep(mode: Mode, run: &mut Run, max_len: usize, max_limit: usize,
                         }
                         if undec {
                             st.2 += 1;
+                        }
+                        if limit >= 1 && 2 * limit <= max_limit {
+                            st.1 += 1;
+                            if let Some(what) = rerun_consistent(&r, limit) {
+                                if viols.len() < 20 {
+                                    viols.push(("interp/two-instalments".to_string(), format!("genome [{label}] cap {cap}: {what}"), run_replay_json(mode, &r, limit, &label)));
+                                }
+                            }
                         }
                         if limit == max_limit {
                             // classify the reference's view of this run for the evidence
